@@ -16,12 +16,23 @@ from ._serialization import deserialize_vlen_property_data
 
 if TYPE_CHECKING:
     from collections.abc import Iterable
+    from types import EllipsisType
     from typing import Literal
 
     from numpy.typing import NDArray
     from zarr.storage import StoreLike
 
     from geff._typing import InMemoryGeff, PropDictNpArray, ZarrPropDict
+
+
+def _mask_selection(mask: NDArray[np.bool_] | None) -> list[bool] | EllipsisType:
+    """Selection to index the first axis of a zarr array with a boolean mask (None selects all).
+
+    zarr rejects an empty list, which is what the mask of a graph without nodes or edges is.
+    """
+    if mask is None or len(mask) == 0:
+        return ...
+    return mask.tolist()
 
 
 class GeffReader:
@@ -158,12 +169,12 @@ class GeffReader:
         dtype = np.dtype(prop_metadata.dtype)
         values_dtype = np.uint64 if prop_metadata.varlength else dtype
         values = np.array(
-            zarr_prop[_path.VALUES][mask.tolist() if mask is not None else ...],
+            zarr_prop[_path.VALUES][_mask_selection(mask)],
             dtype=values_dtype,
         )
         if _path.MISSING in zarr_prop:
             missing = np.array(
-                zarr_prop[_path.MISSING][mask.tolist() if mask is not None else ...],
+                zarr_prop[_path.MISSING][_mask_selection(mask)],
                 dtype=bool,
             )
         else:
@@ -221,7 +232,7 @@ class GeffReader:
                 }
                 ```
         """
-        nodes = np.array(self.nodes[node_mask.tolist() if node_mask is not None else ...])
+        nodes = np.array(self.nodes[_mask_selection(node_mask)])
         node_props: dict[str, PropDictNpArray] = {}
         for name, props in self.node_props.items():
             prop_metadata = self.metadata.node_props_metadata[name]
